@@ -5,10 +5,13 @@
  *
  */
 
+#include <atomic>
+
 namespace opensmt {
 
 namespace {
-    bool globalStopFlag{false};
+    // written by the thread that requests the stop, read by the solving threads
+    std::atomic<bool> globalStopFlag{false};
 }
 
 void notifyGlobalStop() {
